@@ -359,16 +359,31 @@ def run(ctx, rep):
         # ClusterIterator::truncate: the `no current cluster` arm of the test made on entry is not a path of
         # truncate_cluster_chain, which always passes a freshly built iterator (ClusterIterator::new stores Some)
         exempt = set()
-        b0 = 0
-        seen0 = set()
-        while b0 not in seen0 and CT.blocks[b0]['term']['k'] in ('goto', 'assert'):
-            seen0.add(b0)
-            b0 = CT.succ(b0)[0]
-        t0 = CT.blocks[b0]['term']
-        src0 = switch_source(CT, b0) if t0['k'] == 'switch' else None
-        if src0 and src0['kind'] == 'discr' and [e.get('n') for e in src0['place']['p'] if 'f' in e][-1:] == ['cluster']:
-            some = [x for v, x in t0['targets'] if v == 1]
-            exempt = {(b0, x) for x in CT.succ(b0) if x not in some}
+        # blocks after which `*self` may have changed: calls that are handed `self` mutably, assignments through it
+        mut_blocks = set()
+        for bi in CT.reachable():
+            for s_ in CT.blocks[bi]['stmts']:
+                if s_['k'] == 'assign' and s_['lhs']['l'] == 1 and s_['lhs']['p']:
+                    mut_blocks.add(bi)
+            tt = CT.blocks[bi]['term']
+            if tt['k'] == 'call':
+                dct = Deps(CT)
+                for a in tt['args']:
+                    pa = op_place(a)
+                    if pa is not None and CT.local_ty(pa['l']).get('k') == 'ref' and CT.local_ty(pa['l']).get('mut') and \
+                            (pa['l'] == 1 or ('param', 1) in dct.of_local(pa['l'])) and \
+                            not (tt.get('callee') or '').startswith(('log::', 'core::fmt::')):
+                        mut_blocks.add(bi)
+        after_mut = CT.reach_from([x for b in mut_blocks for x in CT.succ(b)]) if mut_blocks else set()
+        for bi in CT.reachable():
+            tt = CT.blocks[bi]['term']
+            if tt['k'] != 'switch' or bi in after_mut:
+                continue
+            src0 = switch_source(CT, bi)
+            if src0 and src0['kind'] == 'discr' and src0['place']['l'] == 1 and \
+                    [e.get('n') for e in src0['place']['p'] if 'f' in e][-1:] == ['cluster']:
+                some = [x for v, x in tt['targets'] if v == 1]
+                exempt |= {(bi, x) for x in CT.succ(bi) if x not in some}
         NEW = facts.fns.get('fatfs::table::ClusterIterator::new')
         fresh = NEW is not None and any(
             s['k'] == 'assign' and s['rv']['k'] == 'agg' and s['rv'].get('variant') == 'Some'
